@@ -4,10 +4,19 @@ writes breaking changes for a property (given only the property's text and its o
 import json, sys
 pid, tests = sys.argv[1], sys.argv[2]
 n = sys.argv[3] if len(sys.argv) > 3 else "three"
+rnd = sys.argv[4] if len(sys.argv) > 4 else ""      # e.g. "r2": second round, avoid earlier ideas
+import glob, os
+tried = []
+if rnd:
+    for d in sorted(glob.glob('/verif/seeded/%s-*/' % pid)):
+        try:
+            tried.append(json.load(open(d + 'meta.json'))['summary'][:300])
+        except Exception:
+            pass
 for l in open('/verif/properties.jsonl'):
     p = json.loads(l)
     if p['id'] == pid: break
-low = pid.lower()
+low = pid.lower() + (('-' + rnd) if rnd else '')
 print(f"""You are testing how well a repository's safety net catches subtle regressions. Work ONLY inside your own scratch git worktree of the Rust repository jamespfennell/texcraft; create it with:
 
     git -C /repo worktree add --detach /tmp/seed-{low}
@@ -29,5 +38,7 @@ For each change i write into /tmp/seed-{low}-out/<i>/ :
   - meta.json with exactly these keys: {{"property": "{pid}", "summary": "...", "needs_to_manifest": "...", "files_changed": [...], "demo_file": "<file name in this directory>", "demo_dest": "<path inside the repo where the demo file must be copied, e.g. crates/dvi/tests/demo_test.rs>", "demo_command": "<cargo test --offline -p <crate> --test demo_test>", "tests_command": "{tests}", "existing_tests_pass": true, "demo_fails_with_patch": true, "demo_passes_without_patch": true}}
 
 Reset the worktree between changes (`git -C /tmp/seed-{low} checkout -- . && git -C /tmp/seed-{low} clean -fdq -e target`). When completely done, remove the worktree and its build output: `git -C /repo worktree remove --force /tmp/seed-{low}` (keep /tmp/seed-{low}-out).
+
+{('Ideas that were ALREADY used by an earlier round (do not repeat them or close variants; pick other functions, other aspects of the property, or the glue between components): ' + ' || '.join(tried)) if tried else ''}
 
 Final report: for each change one short paragraph: what it is, what input exposes it, confirmation of (b)(c) and of the demo in both directions.""")
